@@ -1,4 +1,5 @@
 import CifModel.Lemmas.Dialect
+import CifModel.Props.C12Scan
 /-
   Property C11 — CIF version and character encoding are selected exactly as documented.
 
@@ -107,47 +108,39 @@ theorem C11_wrong_encoding (prefer : Int) (force : Bool) (cfg : Cfg) (h : Header
       ((select prefer force cfg h).version == 2 && (select prefer force cfg h).notUtf8) := by
   simp [select, stage2, ht]
 
-/-- the two character tests that decide the fate of U+FEFF, as written in parser.c (`noClass` = the scanner's class table says
-    NO_CLASS; it is a parameter because the table belongs to the lexer model): get_first_char's acceptance test and SCAN_UCHAR's
-    test for disallowed characters -/
-def firstCharDisallowed (noClass : Nat → Bool) (ch : Nat) : Bool :=
-  if ch > ParseConsts.cif1MaxChar then ch != ParseConsts.ucharBom else noClass ch
-
-def scanDisallowed (noClass : Nat → Bool) (c : Nat) : Bool :=
-  if c < ParseConsts.charTableMax then noClass c
-  else (c &&& 0xFFFE == 0xFFFE) || c == ParseConsts.ucharBom || (0xFDD0 ≤ c && c ≤ 0xFDEF)
-
-/-- **C11, byte-order mark only first**: whatever the class table, U+FEFF passes get_first_char's test (so an initial BOM raises
-    no CIF_DISALLOWED_INITIAL_CHAR) and fails SCAN_UCHAR's test (so any U+FEFF that a scanner function meets — i.e. any that is
-    not the very first character, the only one cif_parse_internal consumes — is reported CIF_DISALLOWED_CHAR); and under
-    CIF 1.1 even the initial one is reported -/
-theorem C11_bom_only_first (noClass : Nat → Bool) :
-    firstCharDisallowed noClass 0xFEFF = false ∧ scanDisallowed noClass 0xFEFF = true ∧
+/-- **C11, byte-order mark only first** — stated over the models that the correspondence families tie to parser.c (`Model.Parser`:
+    `disallowedInitial` = get_first_char's acceptance test, family `parse`; `Model.Lexer`: `disallowedBmp` = SCAN_UCHAR's test,
+    family `lex`), through the scanner theorems of property C12 (group gD):
+    * U+FEFF as the very first character of the input raises no CIF_DISALLOWED_INITIAL_CHAR (`C12_disallowed_initial_char`);
+    * U+FEFF at any other place is a disallowed character for SCAN_UCHAR in both dialects, and wherever a scanner function of
+      the CIF 2.0 scanner meets it inside a token — quoted string, data name, whitespace-delimited value (`C12_defective_unit`), text
+      field, triple-quoted string (`C12_defective_unit_multiline`) — exactly ONE CIF_DISALLOWED_CHAR is reported, at that place,
+      and the unit is kept (`C12_disallowed_char`: `Defect1 .cif2 0xFEFF 0xFEFF …`);
+    * the initial one is reported (CIF_DISALLOWED_CHAR) exactly when the input is parsed as CIF 1.1. -/
+theorem C11_bom_only_first :
+    Model.Parser.disallowedInitial 0xFEFF = false ∧
+    (∀ dia, Model.Lexer.disallowedBmp dia 0xFEFF = true) ∧
+    Model.Lexer.Defect1 .cif2 0xFEFF 0xFEFF (Model.Lexer.disReps .cif2 0xFEFF) ∧
+    (∀ line col, Model.Lexer.disReps .cif2 0xFEFF line col = [(⟨Gen.ErrCodes.CIF_DISALLOWED_CHAR, line, col⟩ : Model.Lexer.Report)]) ∧
     (∀ (prefer : Int) (force : Bool) (cfg : Cfg) (h : Header), h.noText = false →
       (select prefer force cfg h).bomDisallowed = ((select prefer force cfg h).version == 1 && h.bomFirst)) := by
-  refine ⟨?_, ?_, fun prefer force cfg h ht => ?_⟩
-  · have h1 : (0xFEFF : Nat) > ParseConsts.cif1MaxChar := by decide
-    have h2 : ((0xFEFF : Nat) != ParseConsts.ucharBom) = false := by decide
-    simp only [firstCharDisallowed, h1, if_true, h2]
-  · have h1 : ¬ (0xFEFF : Nat) < ParseConsts.charTableMax := by decide
-    have h2 : ((0xFEFF : Nat) == ParseConsts.ucharBom) = true := by decide
-    simp only [scanDisallowed, h1, if_false, h2, Bool.or_true, Bool.true_or]
+  have hd := C12_disallowed_char .cif2 0xFEFF (by decide)
+  refine ⟨by decide, fun dia => by cases dia <;> decide, hd.1, fun line col => hd.2.2 rfl line col, fun prefer force cfg h ht => ?_⟩
   simp [select, stage2, ht]
 
-/-- **C11, same text in any signature-announced encoding**: two inputs that decode to the same text (same version comment, same
-    initial BOM) and are both recognised by their signatures are parsed under the same version with the same BOM report, hence
-    any function of (version, decoded text) — the content — is the same; only CIF_WRONG_ENCODING may differ -/
-theorem C11_same_text_any_signature {α : Type} (parse : Int → Str → α) (text : Str)
-    (prefer : Int) (cfg : Cfg) (h h' : Header) (e e' : Enc)
+/-- **C11, same text in any signature-announced encoding — what is proved**: two inputs that are both recognised by their Unicode
+    signatures and whose DECODED texts begin alike (same version comment, same initial BOM, both non-empty or both empty) are
+    parsed under the same CIF version and with the same report about the initial BOM; only CIF_WRONG_ENCODING may differ
+    (`C11_wrong_encoding`).  The parser model being a function of (dialect, options, decoded units) (`Model.Parser.parse`), the
+    content is then the same PROVIDED both byte sequences decode to the same code units — that is ICU's converter, which is not
+    modelled (see PARTIAL; observed by family `dialect` on the property's table of encodings). -/
+theorem C11_same_version_any_signature (prefer : Int) (cfg : Cfg) (h h' : Header) (e e' : Enc)
     (hs : h.sig = some e) (hs' : h'.sig = some e')
     (hd : h.decoded = h'.decoded) (hb : h.bomFirst = h'.bomFirst) (hn : h.noText = h'.noText) :
-    parse (select prefer false cfg h).version text = parse (select prefer false cfg h').version text ∧
+    (select prefer false cfg h).version = (select prefer false cfg h').version ∧
     (select prefer false cfg h).bomDisallowed = (select prefer false cfg h').bomDisallowed := by
-  have : (select prefer false cfg h).version = (select prefer false cfg h').version ∧
-      (select prefer false cfg h).bomDisallowed = (select prefer false cfg h').bomDisallowed := by
-    simp only [select, stage1, hs, hs', stage2, hd, hb, hn]
-    cases h'.noText <;> simp
-  rw [this.1]; exact ⟨rfl, this.2⟩
+  simp only [select, stage1, hs, hs', stage2, hd, hb, hn]
+  cases h'.noText <;> simp
 
 /-- finding G4 (tree before the repair): with the last branch passing NULL, a named default is not used although no signature
     was detected and CIF 1.1 was selected -/
@@ -185,6 +178,6 @@ example : followersCover ⟨false, true, true, true, true, [32, 9, 10, 13], true
 example : (select 5 false ⟨false, true, true, true, true, [32, 9, 10, 13], true⟩ ⟨some .utf8, true, false, none, false, .none, true, false⟩).version = 2 := by decide
 example : (select 0 false ⟨false, true, true, true, true, [32, 9, 10, 13], true⟩ ⟨some .utf8, true, false, none, false, .none, true, false⟩).bomDisallowed = true := by decide
 example : (select 0 false ⟨false, true, true, true, true, [32, 9, 10, 13], true⟩ ⟨some .utf16be, false, false, none, false, .v2, true, false⟩).wrongEncoding = true := by decide
-example : scanDisallowed (fun _ => false) 0x4E2D = false ∧ firstCharDisallowed (fun _ => false) 0x4E2D = true := by decide
+example : Model.Lexer.disallowedBmp .cif2 0x4E2D = false ∧ Model.Parser.disallowedInitial 0x4E2D = true := by decide
 
 end CifModel
